@@ -91,6 +91,36 @@ fn check(ctx: &mut Ctx, case: &ProjectCase, seed: u64) {
     });
 }
 
+/// the same differential through the `txtpp` binary (flag mapping of main.rs included)
+fn check_cli(ctx: &mut Ctx, case: &ProjectCase, seed: u64) {
+    let root = ctx.scratch.fresh();
+    crate::util::materialize(&root, &case.files, &case.dirs);
+    crate::util::materialize(&root, &case.prestate, &[]);
+    let before = crate::util::snap(&root);
+    let cfg = case.cfg(&root);
+    let o = crate::run::run_cli(&root, &cfg.cli_args(), &Default::default());
+    let after = crate::util::snap(&root);
+    ctx.evals += 1;
+    ctx.count("cli_runs", 1);
+    let expect = crate::model::evaluate(&case.files, &root.to_string_lossy(), case.trailing, &case.requested());
+    ctx.scratch.discard(&root);
+    if expect.out_of_domain.is_some() || o.timed_out {
+        return;
+    }
+    let verdict = match o.code {
+        Some(0) => crate::run::Verdict::Ok,
+        Some(1) => crate::run::Verdict::Err(o.stderr.clone()),
+        _ => {
+            ctx.violation("C01:cli:abnormal-exit", o.short(), case.to_json());
+            return;
+        }
+    };
+    let res = crate::props::common::ProjectResult { root, outcome: crate::run::Outcome { verdict, trace: Default::default(), panics: vec![], wall: o.wall }, before, after, expect };
+    for (sig, msg) in judge_project(case, &res) {
+        ctx.violation(format!("C01:cli:{sig}"), format!("{msg}\n(through the binary: txtpp {}; seed {seed})", cfg.cli_args().join(" ")), case.to_json());
+    }
+}
+
 fn run(ctx: &mut Ctx) {
     let n = ctx.tier.pick(2500, 25_000);
     let base = ctx.shard_seed().wrapping_mul(1_000_003);
@@ -101,6 +131,9 @@ fn run(ctx: &mut Ctx) {
         let seed = base + i;
         let case = make_case(seed);
         check(ctx, &case, seed);
+        if i % 40 == 7 {
+            check_cli(ctx, &case, seed);
+        }
         if ctx.violations.len() >= 30 {
             break;
         }
